@@ -183,9 +183,7 @@ def insert (c : Container K V) (k : K) (v : V) : Container K V × Option V :=
   | .n (e :: r) =>
     let m := e :: r
     -- `map.get(&k).map(|e| e.index).unwrap_or(map.len())`
-    let index := match HMap.get m k with
-      | some old => old.index
-      | none => m.length
+    let index := ((HMap.get m k).map (·.index)).getD m.length
     (.n (HMap.put m k ⟨v, index⟩), (HMap.get m k).map (·.v))
 
 /-- `CompactOrderedHashMapIter::next`, unrolled: `fuel` bounds the number of items by `len`, which is
